@@ -83,6 +83,7 @@ CHECKS["C07"] = dict(
         dict(name="H07-unpaged", pkgs=["./backend"], entry="backend.VfWalkUnpaged", native=True, reach=["listed"], budget=dict(thorough="15m")),
         dict(name="H07-paged", pkgs=["./backend"], entry="backend.VfWalkPaged", native=True, reach=["paged"], budget=dict(thorough="25m")),
         dict(name="H07-marker", pkgs=["./backend"], entry="backend.VfWalkMarker", native=True, reach=["listed"], budget=dict(thorough="10m")),
+        dict(name="H07-bookkeeping", pkgs=["./backend/posix"], entry="backend/posix.VfBookkeepingHidden", redirects="spec/redirects_fs.json", reach=["listed"]),
         dict(name="H07-witness", pkgs=["./backend"], entry="backend.VfWalkWitness", witness=True),
     ],
     assumptions=["the file system lists directory entries sorted by name (os.ReadDir contract)",
@@ -305,6 +306,7 @@ CHECKS["C08"] = dict(
         dict(name="H08b-complete", entry="backend/posix.VfMultipartComplete", reach=["completed", "refused"], **_FS),
         dict(name="H08c-program", entry="backend/posix.VfMultipartProgram", reach=["aborted", "completed"], **_FS),
         dict(name="H08a-copyrange", pkgs=["./backend"], entry="backend.VfCopySourceRange", native=True, reach=["accepted", "refused"]),
+        dict(name="H08d-part-no-object", entry="backend/posix.VfPartIsNoObject", reach=["probed"], **_FS),
     ],
     assumptions=["file-system model; MD5/SHA-256 uninterpreted (real function on concrete inputs)", "bulk content of big parts is abstract (size only)"],
     outside=["UploadPartCopy data path", "ListMultipartUploads markers", "checksum variants", "more than three listed parts / two uploads"],
